@@ -315,6 +315,31 @@ theorem C09_mc_scan_rows_are_nested_independent_runs (w : Worker) (inner : List 
   | error e => rfl
   | ok c1 => rfl
 
+/-- `mc.scan_steady_state` under ANY schedule of the pool (worker count, assignment of samples to processes) returns what
+    a single process working through the samples in order returns — same rows, same order, same labels, same exception -/
+theorem C09_mc_scan_any_schedule (cf : Bool) (assign : List Nat) (n : Nat) (hn : 0 < n) (w : Worker)
+    (inner : List (Label × Row)) (c : Content) (samples : List (Label × Row)) :
+    mcScan cf assign n w inner c samples = mcScan cf [] 1 w inner c samples := by
+  unfold mcScan
+  rw [schedMap_eq_map assign n hn, schedMap_eq_map [] 1 (by omega)]
+
+/-- `mc.scan_steady_state`, parent side: the task's answer, unpickled next to the caller's model, IS the independent runs
+    of the inner rows on the sample's model `c1` (in a heap that also holds the caller's model and the task's copy of
+    it) — so `C09_rows_equal_independent_runs` applies verbatim to the views the parent reads: each equals the view of a
+    separate run of that inner row on a fresh copy of `c1`, and the caller's model (cell 0) is untouched -/
+theorem C09_mc_scan_answer_is_independent_runs (w : Worker) (inner : List (Label × Row)) (c c1 : Content) (sample : Row)
+    (ha : applyRow c sample = .ok c1) :
+    (mcScanChild shippedCopyFirst w inner c sample).map (transplant [c]) = independentRuns w [c, c, c1] c1 inner := by
+  rw [C09_mc_scan_rows_are_nested_independent_runs, ha]
+  simp only [independentRuns]
+  cases pureRows w c1 inner with
+  | error e => rfl
+  | ok ps =>
+    simp only [Except.map, transplant, placeAll]
+    congr 1
+    rw [placeFrom_shift]
+    simp
+
 /-! ### facts regenerated from scan.py / mc.py / parallel.py on every run (`translate/c09.py` → `Generated/C09Facts.lean`) -/
 
 open Mxl.Generated.C09 in
@@ -334,6 +359,12 @@ theorem C09_source_parallelise :
   decide
 
 open Mxl.Generated.C09 in
+/-- failing rows: all four scan workers catch `ZeroDivisionError` (the model's `guardZeroDiv` branches on it), and
+    `Simulation.default` replaces a model that cannot be evaluated at its initial state by its NaN-valued copy instead of
+    raising again (after the repair of F-C09-3) -/
+theorem C09_source_failing_rows : workersCatchZeroDivision = true ∧ placeholderSurvivesZeroDivision = true := by decide
+
+open Mxl.Generated.C09 in
 /-- EVERY scan driver (scan.* ×4, mc.* ×5, the three mc.* MCA wrappers): rows come from `list(<table>.iterrows())` of the
     driver's own table argument, the worker is handed `y0=None` (custom initial values are written into the model first,
     so that a row's own initial values win), no driver passes a `timeout` (so no row is ever dropped:
@@ -351,6 +382,52 @@ open Mxl.Generated.C09 in
 theorem C09_source_containers :
     (drivers.filter fun d => d.container == Container.positional).map (fun d => (d.module, d.name))
       = [("scan", "steady_state"), ("mc", "steady_state")] := by decide
+
+/-! ### the placeholder grids of the CURRENT source are the grids of successful runs -/
+
+section
+open Mxl.Generated.C09
+
+/-- the placeholder grid of the time-course worker, as the source computes it, IS the time index of a successful run -/
+theorem C09_source_placeholder_time_course (tps : List Rat) : tcPlaceholder tps = tcIndex tps := by
+  unfold tcPlaceholder tcIndex tcGrid
+  have hf : tps.filter tcKeeps = tps.filter (fun t => decide (0 ≤ t)) := by
+    apply List.filter_congr
+    intro t _
+    simp [tcKeeps, GE.ge]
+  simp only [hf, tcStart]
+  cases tps.filter (fun t => decide (0 ≤ t)) with
+  | nil => simp
+  | cons a r =>
+    by_cases h : a = 0
+    · simp [h]
+    · simp [h]
+
+/-- … and so is the protocol worker's (`time_points_per_step > 0`, a protocol with at least one step) -/
+theorem C09_source_placeholder_protocol (proto : Protocol) (steps : Nat) (hs : 0 < steps) (hp : proto ≠ []) :
+    protoPlaceholder linspace steps (proto.map (·.1)) = protoIndex steps 0 true proto := by
+  cases proto with
+  | nil => exact absurd rfl hp
+  | cons s rest =>
+    simp only [protoPlaceholder, protoStart, List.map_cons, protoSteps, protoIndex, protoPoints, protoDrop,
+      protoSteps_eq steps rest s.1, if_true]
+    have hh := linspace_succ_head 0 s.1 steps hs
+    cases hg : linspace 0 s.1 (steps + 1) with
+    | nil => rw [hg] at hh; simp at hh
+    | cons a r =>
+      rw [hg] at hh
+      simp at hh
+      subst hh
+      simp
+
+/-- … and the protocol + time points worker's: the start, then the union of protocol ends and requested points that lies
+    in `(0, T_end]` (`joinOuter` = `np.union1d`) -/
+theorem C09_source_placeholder_ptc (proto : Protocol) (tps : List Rat) :
+    ptcIndex proto tps =
+      ptcStart :: (joinOuter (proto.map (·.1)) tps).filter fun t => ptcKeeps t ((proto.getLast?.map (·.1)).getD 0) := by
+  simp only [ptcIndex, ptcStart, ptcKeeps, GT.gt]
+
+end
 
 /-! ### why the per-row copy is needed (the code before the fix) -/
 
@@ -386,12 +463,22 @@ theorem C09_witness_after_fix :
 
 /-! ### NaN placeholders: shape of a failing row vs shape of a successful row -/
 
+/-- A ROW THAT RAISES `ZeroDivisionError` WHILE ITS SIMULATOR IS BUILT (every scan worker's `except ZeroDivisionError`):
+    for each of the four workers the independent run of such a row IS the NaN placeholder over the worker's success
+    grid, built on the row's own model — no exception escapes; by `C09_parallel_is_independent` /
+    `C09_sequential_is_independent` it then sits at its own position under its own label in every mode -/
+theorem C09_zero_division_row_is_placeholder (cfg : EulerCfg) (run : Content → Except Err (Content × Option (List Seg)))
+    (idx : List Rat) (c c1 : Content) (row : Row) (ig : Integ) (ha : applyRow c row = .ok c1)
+    (hi : simInit cfg c1 = .ok ig) (hz : zeroDivAt cfg c1 = .ok true) :
+    rowPure { run := guardZeroDiv cfg run, dfltIndex := idx } c row = mkDefault c1 idx := by
+  simp only [rowPure, ha, guardZeroDiv, hi, hz, show Generated.C09.workersCatchZeroDivision = true from by decide, if_true]
+
 /-- steady-state worker (full): a successful result has exactly one row and so has the
     placeholder (`SteadyStateScan` takes `.iloc[-1]` of either); the worker leaves the model alone. -/
 theorem C09_nan_shape_steady_state (cfg : EulerCfg) (c c' : Content) (segs : List Seg)
     (h : (ssWorker cfg).run c = .ok (c', some segs)) :
     (segs.flatMap (·.rows)).length = (ssWorker cfg).dfltIndex.length ∧ c' = c := by
-  have := ssRun_shape cfg c c' segs h
+  have := ssRun_shape cfg c c' segs (guardZeroDiv_some h)
   simpa [ssWorker] using this
 
 /-- time-course worker (full, after "fix: NaN placeholders of failed scan rows have the time points of a
@@ -400,14 +487,14 @@ theorem C09_nan_shape_steady_state (cfg : EulerCfg) (c c' : Content) (segs : Lis
 theorem C09_nan_shape_time_course (cfg : EulerCfg) (tps : List Rat) (c c' : Content) (segs : List Seg)
     (h : (tcWorker cfg tps).run c = .ok (c', some segs)) :
     (segs.flatMap (·.rows)).map (·.1) = (tcWorker cfg tps).dfltIndex :=
-  (tcRun_index cfg tps c c' segs h).1
+  (tcRun_index cfg tps c c' segs (guardZeroDiv_some h)).1
 
 /-- protocol worker (full): for every protocol and every `time_points_per_step > 0` a successful row has the
     placeholder's time index — `steps + 1` points for the first step, `steps` for every later one. -/
 theorem C09_nan_shape_protocol (cfg : EulerCfg) (proto : Protocol) (steps : Nat) (hs : 0 < steps)
     (c c' : Content) (segs : List Seg) (h : (protoWorker cfg proto steps).run c = .ok (c', some segs)) :
     (segs.flatMap (·.rows)).map (·.1) = (protoWorker cfg proto steps).dfltIndex :=
-  protoRun_index cfg proto steps hs c c' segs h
+  protoRun_index cfg proto steps hs c c' segs (guardZeroDiv_some h)
 
 /-- the row count the placeholder had before the fix (`len(protocol) * time_points_per_step`) was one short -/
 theorem C09_protocol_row_count (cfg : EulerCfg) (proto : Protocol) (steps : Nat) (hp : proto ≠ []) :
